@@ -500,6 +500,7 @@ class Sim(World):
         self.cov = collections.Counter()
         self.deliveries = []         # (at, source key, true origin, member?) for the monitors
         self.alive = [True] * n
+        self.extra_viol = []         # violations noticed inside an action (drained by monitor())
         self.tainted = set()         # (i, j): somebody who is not j told i "I am j" although i dials j (outside C14)
 
     # ---- model lines ---------------------------------------------------------------------------
@@ -589,6 +590,7 @@ class Sim(World):
         lst = self.fabric.listeners.get(self.port(j))
         if lst is None or not lst.acceptq or lst.owner != j:
             return None
+        lst.acceptq[0].heard = self.fabric.now
         r, out = self.call(j, lambda: self.sobjs[j]._poller.fire(lst.fd, READ))
         self.cov["accept"] += 1
         return [(j, "accept %d" % j, out)]
@@ -600,6 +602,7 @@ class Sim(World):
         if cid is None:
             return None
         sock.kind = "established"
+        sock.heard = self.fabric.now      # connection established: the read timeout counts from here
         before = len(self.fabric.socks)
         r, out = self.call(i, lambda: self.sobjs[i]._poller.fire(sock.fd, WRITE),
                            imm_fail=[sock.dest[1] - 4000] if imm_fail else (),
@@ -723,10 +726,28 @@ class Sim(World):
         if use_rf:
             outcomes = ["fail"]
         origin = self.true_origin(dst)
+        live_ro = set()
+        for cobj in self.conn_objs[i]:
+            if cobj.state == 2:
+                b = self.bound_node(cobj)
+                if b is not None and b[0] == "ro":
+                    live_ro.add(b[1])
+        if term is None:
+            dst.heard = self.fabric.now   # something arrived from the peer
         before = len(self.fabric.socks)
         r, out = self.call(i, lambda: self.sobjs[i]._poller.fire(dst.fd, READ),
                            imm_fail=[pj] if f else (), send_outcomes=outcomes)
         self._stamp(i, before)
+        for o in out:
+            if o[0] == "roConn" and o[1][1] in live_ro:
+                # C18 / C14: ids of read-only nodes are identities; two connected ones never share one
+                self.extra_viol.append({
+                    "signature": "transport.readonly:id-reused-while-connected",
+                    "what": "transport %d gave the read-only id %r to a newly connected read-only node while another "
+                            "read-only node with that id is still connected%s" % (
+                                i, str(o[1][1]),
+                                " (its connection was closed as a stale duplicate)" if any(x[0] == "roDisc" for x in out)
+                                else "")})
         for o in out:
             if o[0] == "deliver":
                 self.deliveries.append({"at": i, "source": o[1], "origin": origin, "msg": o[2],
@@ -762,6 +783,18 @@ class Sim(World):
         self._stamp(i, before)
         if not (out and out[-1][0] == "raised"):
             out.append(["sendResult", 1 if r else 0])
+        if r:
+            # C14 "notifications match the ability to exchange messages" / read timeout: send() must not claim success
+            # over a connection whose peer has been completely silent for longer than connectionTimeout
+            conn = t._connections.get(node)
+            sk = conn._TcpConnection__socket if conn is not None else None
+            heard = getattr(sk, "heard", None)
+            if heard is not None and self.fabric.now - heard > self.timeout:
+                self.extra_viol.append({
+                    "signature": "transport.timeout:silent-peer-not-disconnected",
+                    "what": "transport %d: send(%r) returned True at t=%d although nothing has arrived on that connection "
+                            "since t=%d (connectionTimeout %d): the silent peer was never reported disconnected, no "
+                            "reconnect attempted" % (i, key, self.fabric.now, heard, self.timeout)})
         self.cov["send"] += 1
         self.cov["send.result=%s" % bool(r)] += 1
         f = 1 if imm_fail and key[0] == "tcp" else 0
@@ -846,7 +879,8 @@ class Sim(World):
 
     def monitor(self):
         """Evaluate the state clauses of C14 on every live transport; returns a list of violations."""
-        v = []
+        v = list(self.extra_viol)
+        del self.extra_viol[:]
         for i in range(self.n):
             if not self.alive[i]:
                 continue
